@@ -82,6 +82,16 @@ type c05In struct {
 	// context deadline. Abstract times: a provider with Time < Deadline acts at once, one with
 	// Time >= Deadline only after the deadline has passed.
 	Real bool `json:"real,omitempty"`
+	// Race: class reply-at-deadline. The call is repeated Rounds times; in every round all gated
+	// providers are released and the caller's context is cancelled within the same instant (both
+	// orders and concurrently, zero to a millisecond apart). Whether a reply that becomes readable
+	// at the deadline is still delivered is the scheduler's choice: it is recorded per round and
+	// enters the Coq case as that provider's abstract time (1 = before the deadline 2, 2 = at it).
+	Race *c05Race `json:"race,omitempty"`
+}
+
+type c05Race struct {
+	Rounds int `json:"rounds"`
 }
 
 var c05Kinds = []struct {
@@ -520,6 +530,11 @@ type c05Obs struct {
 	Closed    int          `json:"closed"` // step at which the channel was seen closed, -1 = never
 	GorBack   bool         `json:"goroutines_back"`
 	Note      string       `json:"note,omitempty"`
+	// class reply-at-deadline: the distinct outcomes seen over the rounds (each a full observation
+	// of one round); Late = indices of the peers whose reply was not delivered in that outcome
+	Variants []c05Obs `json:"variants,omitempty"`
+	Late     []int    `json:"late,omitempty"`
+	Rounds   int      `json:"rounds,omitempty"`
 }
 
 func c05WaitCount(want int, limit time.Duration) bool {
@@ -540,6 +555,9 @@ func c05WaitCount(want int, limit time.Duration) bool {
 }
 
 func c05RunCase(in c05In, slow int) (obs c05Obs) {
+	if in.Race != nil {
+		return c05RunRace(in, slow)
+	}
 	obs.Closed = -1
 	limit := time.Duration(slow) * 5 * time.Second
 	pr := c05Prepare(in)
@@ -632,10 +650,16 @@ func c05RunCase(in c05In, slow int) (obs c05Obs) {
 		}
 		return k
 	}
+	nprov := 0
+	for _, pp := range pr.peers {
+		if pp.typ == p2p.PeerTypeProvider {
+			nprov++
+		}
+	}
 	dl := time.Now().Add(time.Duration(slow) * 2 * time.Second)
 	for time.Now().Before(dl) {
 		n := runtime.NumGoroutine()
-		if n <= base || parkedNow() == n-base-1 {
+		if n <= base || parkedNow() == n-base-1 || int(atomic.LoadInt32(&st.parkedTotal)) >= nprov {
 			break
 		}
 		time.Sleep(20 * time.Microsecond)
@@ -668,8 +692,8 @@ func c05RunCase(in c05In, slow int) (obs c05Obs) {
 				return
 			}
 			cur -= k
-			if cur <= base+1 {
-				// only the closing goroutine can be left: let it finish
+			if parkedNow() == 0 {
+				// every worker has been released and has exited: let the closing goroutine finish
 				c05WaitCount(base, time.Duration(slow)*500*time.Millisecond)
 			}
 			drain(t)
@@ -687,6 +711,171 @@ func c05RunCase(in c05In, slow int) (obs c05Obs) {
 		obs.Note = "goroutines left after the deadline"
 	}
 	return
+}
+
+// ---------------------------------------------------------------------------------------------
+// class reply-at-deadline
+// ---------------------------------------------------------------------------------------------
+
+func c05Spin(d time.Duration) {
+	for t0 := time.Now(); time.Since(t0) < d; {
+	}
+}
+
+func c05RunRace(in c05In, slow int) (obs c05Obs) {
+	obs.Closed = -1
+	limit := time.Duration(slow) * 5 * time.Second
+	pr := c05Prepare(in)
+	logger := slog.New(slog.NewTextHandler(io.Discard, nil))
+	gaps := []time.Duration{0, time.Microsecond, 5 * time.Microsecond, 20 * time.Microsecond,
+		100 * time.Microsecond, 400 * time.Microsecond, time.Millisecond}
+	seen := map[string]bool{}
+	nprov := 0
+	for _, pp := range pr.peers {
+		if pp.typ == p2p.PeerTypeProvider {
+			nprov++
+		}
+	}
+	for round := 0; round < in.Race.Rounds; round++ {
+		obs.Rounds = round + 1
+		var ro c05Obs
+		ro.Closed = -1
+		st := &c05Streamer{peers: map[common.Address]*c05FakePeer{}}
+		topo := topology.New(nil, logger)
+		for _, pp := range pr.peers {
+			st.peers[pp.addr] = &c05FakePeer{prep: pp, rel: make(chan struct{})}
+			topo.Connected(p2p.Peer{EthAddress: pp.addr, Type: pp.typ})
+		}
+		ws := &c05Signer{Signer: pr.bidder}
+		svc := preconfirmation.New(topo, st, ws, nil, nil, nil, logger)
+		ctx, cancel := context.WithCancel(context.Background())
+		base := runtime.NumGoroutine()
+		ch, err := svc.SendBid(ctx, in.Tx, in.Amt, in.BN, in.DS, in.DE)
+		if err != nil || ch == nil {
+			cancel()
+			obs.Ret = 1
+			obs.Csb = ws.calls
+			return obs
+		}
+		// all workers parked at their gates
+		dl := time.Now().Add(time.Duration(slow) * 2 * time.Second)
+		for time.Now().Before(dl) {
+			n, k := runtime.NumGoroutine(), 0
+			for _, fp := range st.peers {
+				k += int(atomic.LoadInt32(&fp.parked))
+			}
+			if n <= base || k >= n-base-1 || int(atomic.LoadInt32(&st.parkedTotal)) >= nprov {
+				break
+			}
+			time.Sleep(20 * time.Microsecond)
+		}
+		release := func() {
+			for _, pp := range pr.peers {
+				if pp.mode != c05ModeSilence {
+					close(st.peers[pp.addr].rel)
+				}
+			}
+		}
+		gap := gaps[(round/3)%len(gaps)]
+		switch round % 3 {
+		case 0: // the replies become readable, then the deadline fires
+			release()
+			c05Spin(gap)
+			cancel()
+		case 1: // the deadline fires, then the replies become readable
+			cancel()
+			c05Spin(gap)
+			release()
+		default: // both at once, from two goroutines
+			var wg sync.WaitGroup
+			start := make(chan struct{})
+			wg.Add(2)
+			go func() { defer wg.Done(); <-start; release() }()
+			go func() { defer wg.Done(); <-start; c05Spin(gap / 4); cancel() }()
+			close(start)
+			wg.Wait()
+		}
+		// the result stream has to end
+		tm := time.NewTimer(limit)
+		open := true
+		for open {
+			select {
+			case c, ok := <-ch:
+				if !ok {
+					open = false
+					break
+				}
+				ro.Delivered = append(ro.Delivered, c05Deliv{Step: 1, Msg: c05Marshal(c)})
+			case <-tm.C:
+				obs.Ret = 3
+				obs.Note = fmt.Sprintf("round %d: result channel not closed after the deadline", round)
+				obs.Csb = ws.calls
+				return obs
+			}
+		}
+		tm.Stop()
+		if !c05WaitCount(base, limit) {
+			obs.Ret = 3
+			obs.Note = fmt.Sprintf("round %d: goroutines left after the channel was closed", round)
+			obs.Csb = ws.calls
+			return obs
+		}
+		ro.GorBack = true
+		ro.Csb = ws.calls
+		for _, pp := range pr.peers {
+			fp := st.peers[pp.addr]
+			for _, s := range fp.contacts {
+				ro.Contacted = append(ro.Contacted, c05Contact{Addr: hex.EncodeToString(pp.addr.Bytes()),
+					Writes: append([][]byte(nil), s.writes...)})
+			}
+		}
+		for _, a := range st.strangers {
+			ro.Contacted = append(ro.Contacted, c05Contact{Addr: hex.EncodeToString(a.Bytes())})
+		}
+		sort.SliceStable(ro.Contacted, func(i, j int) bool { return ro.Contacted[i].Addr < ro.Contacted[j].Addr })
+		sort.SliceStable(ro.Delivered, func(i, j int) bool { return string(ro.Delivered[i].Msg) < string(ro.Delivered[j].Msg) })
+		// which providers' replies made it: a delivered value is attributed to the peer whose
+		// first frame it is (provider address aside)
+		used := make([]bool, len(ro.Delivered))
+		allIn := true
+		for i, pp := range pr.peers {
+			got := false
+			if pp.typ == p2p.PeerTypeProvider && pp.mode == c05ModeFrames && len(pp.frames) > 0 {
+				want := new(preconfpb.PreConfirmation)
+				if proto.Unmarshal(pp.frames[0], want) == nil {
+					want.ProviderAddress = nil
+					for j, d := range ro.Delivered {
+						have := new(preconfpb.PreConfirmation)
+						if used[j] || proto.Unmarshal(d.Msg, have) != nil {
+							continue
+						}
+						have.ProviderAddress = nil
+						if proto.Equal(want, have) {
+							used[j], got = true, true
+							break
+						}
+					}
+				}
+			}
+			if !got {
+				ro.Late = append(ro.Late, i)
+				if pp.typ == p2p.PeerTypeProvider {
+					allIn = false
+				}
+			}
+		}
+		ro.Closed = 2
+		if allIn {
+			ro.Closed = 1
+		}
+		sig, _ := json.Marshal([]interface{}{ro.Late, ro.Delivered, ro.Contacted})
+		if !seen[string(sig)] {
+			seen[string(sig)] = true
+			obs.Variants = append(obs.Variants, ro)
+		}
+	}
+	obs.Closed, obs.GorBack = 2, true
+	return obs
 }
 
 // ---------------------------------------------------------------------------------------------
@@ -1510,6 +1699,20 @@ func TestVerifC05(t *testing.T) {
 			bad(&in)
 			add("refused:"+strconv.Itoa(i), in)
 		}
+		// reply-at-deadline: valid replies released in the same instant as the deadline fires
+		rounds := 60
+		if e.Tier != "quick" {
+			rounds = 210
+		}
+		for _, ks := range [][]string{{"honest"}, {"honest", "honest", "honest"},
+			{"honest", "honest", "otherbid-fields", "silence"}, {"honest", "foreign-key", "twoframes", "errframe", "honest"}} {
+			in := g.base()
+			for j, k := range ks {
+				in.Peers = append(in.Peers, g.peer(j, "provider", k, 0, 1))
+			}
+			in.Deadline, in.Race = 2, &c05Race{Rounds: rounds}
+			add("reply-at-deadline", in)
+		}
 		// real-stream: real libp2p services on loopback, scripted provider handlers, a real deadline
 		realCase := func(ps ...c05PeerIn) {
 			in := g.base()
@@ -1598,6 +1801,27 @@ func TestVerifC05(t *testing.T) {
 			continue
 		}
 		in, o := items[i].in, obs[i]
+		if in.Race != nil && o.Ret == 0 {
+			// one case per distinct outcome of the rounds; the recorded choice of the scheduler
+			// (which replies were still delivered) fixes the abstract times
+			for _, v := range o.Variants {
+				v := v
+				inV := in
+				inV.Race, inV.Deadline = nil, 2
+				inV.Peers = append([]c05PeerIn(nil), in.Peers...)
+				for k := range inV.Peers {
+					inV.Peers[k].Time = 1
+				}
+				for _, k := range v.Late {
+					if k >= 0 && k < len(inV.Peers) {
+						inV.Peers[k].Time = 2
+					}
+				}
+				v.Rounds = o.Rounds
+				e.Emit(items[i].class, in, v, func(id int) string { return c05CoqCase(id, inV, v) })
+			}
+			continue
+		}
 		e.Emit(items[i].class, in, o, func(id int) string { return c05CoqCase(id, in, o) })
 	}
 }
